@@ -5,13 +5,19 @@ import vlib
 MANIFEST = dict(
     module="MdOut", ref="§5 C20",
     text="Word bodies are abstract block sequences in MdOut.tla (paragraph / heading 1-9 / quote / code / list item / empty "
-         "paragraph with runs carrying any of the 16 bold-italic-strike-code flag sets and a text class, tables 1x1..3x3); the "
+         "paragraph with runs carrying any of the 16 bold-italic-strike-code flag sets and a text class, tables 1x1..3x3; a "
+         "heading / quote / code paragraph may also carry numbering properties - Word's numbered headings - and any styled "
+         "paragraph may be blank; the text classes cover the Markdown metacharacters in harmless and meaningful positions, "
+         "every list marker in front of a word, texts that are a block marker and nothing else, and white space); the "
          "reference function MdOut!ToMd(body, options) gives what the property demands of the Markdown as a relation over its "
          "projection (block kinds in body order, every run's visible tokens exactly once, flags), and MdOut!Judge compares an "
          "observed projection with it field by field. TLC builds every body within the bounds block by block (so every "
          "interleaving of paragraphs and tables) x export options x ways of calling the exporter, checks the design laws of ToMd "
-         "on all of them (order, text exactly once, flags, options only govern the table layout, the judge accepts the reference "
-         "and rejects damaged projections, compositionality, the fixpoint on the model) and emits the cases. The harness builds "
+         "on all of them (order, text exactly once, flags, options only govern the table layout, the style decides what a "
+         "numbered paragraph is, a block that shows nothing leaves no trace in the others, the judge accepts the reference "
+         "and rejects damaged projections, compositionality, the fixpoint on the model) and emits the cases; dedicated layers put "
+         "a blank styled paragraph before and between blocks with formatted and escapable text (the exporter's walk has a memory: "
+         "in a list, in a code block) and numbered headings / quotes / code next to list items under both heading syntaxes. The harness builds "
          "each body with the public API (optionally saves and reopens it), exports it through ExportToString / ExportToBytes / "
          "ExportToFile / BatchExport / AutoConvert, reads the Markdown with the reference CommonMark+GFM renderer, converts it "
          "back with the real ConvertString, projects the converted document from its saved bytes with the independent reader and "
@@ -30,9 +36,10 @@ RULE = ("cases = every Word body within each bfs_* bound (built by the generator
         "flags, table cells) and compared with MdOut!ToMd by MdOut!Judge (phase exp); the Markdown is converted back by the real "
         "ConvertString, the saved converted document is projected the same way and compared again (phase fix: block sequence and "
         "text), and the export of the converted document must equal the first export (fix/stable); a deviation is reported under "
-        "(phase, field, construct classes), minimal class sets only")
+        "(phase, field, construct classes), minimal class sets only; the classes of a block include what it is (kind, numbering "
+        "properties, text classes, flag sets, how its runs meet) and which blank styled paragraphs precede it in the body")
 
-LAWS = ["Inv_Order", "Inv_TextOnce", "Inv_Flags", "Inv_Options", "Inv_Reflexive", "Inv_Sensitive"]
+LAWS = ["Inv_Order", "Inv_TextOnce", "Inv_Flags", "Inv_Options", "Inv_Reflexive", "Inv_Sensitive", "Inv_StyleWins", "Inv_BlankNoTrace"]
 PAR = 6
 
 
@@ -165,8 +172,12 @@ def S(*xs):
 F16 = S("", "b", "i", "s", "c", "bi", "bs", "bc", "is", "ic", "sc", "bis", "bic", "bsc", "isc", "bisc")
 META = S("star", "star1", "us", "us1", "hash", "hashend", "pipe", "tick", "tick1", "gt", "brk", "link", "bs", "bs1", "lt", "lt1",
          "amp", "amp1", "tilde", "numdot", "dash", "dash1", "fence")
+# the list markers the first set lacks, in front of a word; texts that are a block marker and nothing else; look-alikes
+MARK = S("plus", "numpar", "num2", "m-dash", "m-plus", "m-star", "m-num", "m-par", "m-hash", "m-gt", "m-rule", "m-eq", "m-dashsp",
+         "dashw", "decimal")
 SPACE = S("lead", "trail", "dbl", "ind4", "nl", "tab")
-ALLCLS = META | SPACE | S("w1", "two", "cjk", "empty")
+ALLCLS = META | MARK | SPACE | S("w1", "two", "cjk", "empty")
+STYLED = S("h", "q", "code", "li")
 ALLK = S("p", "h", "q", "code", "li", "empty", "tbl")
 SHAPES = S("1x1", "1x2", "1x3", "2x1", "2x2", "2x3", "3x1", "3x2", "3x3")
 T, F = True, False
@@ -175,6 +186,7 @@ B = lambda *xs: vlib.Raw("{" + ", ".join("TRUE" if x else "FALSE" for x in xs) +
 BASE = dict(
     MaxBlocks=1, MinBlocks=1, MaxRuns=1, Kinds=S("p"), HLevels=S(1), LiTypes=S("bul"), LiLevels=S(0),
     FlagNames=S(""), FirstCls=S("w1"), MoreCls=S("w2"), PosText=False, TblOffs=S(0), EmptyCls=S("none"), TblShapes=S("2x2"),
+    BlankKinds=S(), BlankOnly=S(), NumPrs=S(""),
     Gfms=B(T), Setexts=B(F), Metas=B(F), Bullets=S("-"), Emphs=S("*"), Langs=S(""), Wraps=S(0), Miscs=S("default"), OptArity=8,
     Apis=S("string"), Cos=S("ctor"), Origins=S("mem"), Warms=B(F), UOpts=S("default"),
 )
@@ -196,7 +208,8 @@ def cfg_of(ctx, name, lay, invariants, properties=()):
 def tiers(ctx):
     q = ctx.tier == "quick"
     mc = layer("CS_mix", MaxBlocks=2, Kinds=ALLK, HLevels=S(1, 7), FlagNames=S("", "ic"), FirstCls=S("w1", "star"),
-               EmptyCls=S("none", "ws"), TblShapes=S("1x1", "2x2"), Gfms=B(T, F), Setexts=B(F, T), OptArity=2,
+               EmptyCls=S("none", "ws"), BlankKinds=S("code", "li"), NumPrs=S("", "num"),
+               TblShapes=S("1x1", "2x2"), Gfms=B(T, F), Setexts=B(F, T), OptArity=2,
                UOpts=S("default", "simple", "setext", "wrapmeta"), **({} if q else dict(MaxRuns=2, MoreCls=S("lead"))))
     layers = {
         # every interleaving of paragraphs (of several kinds) and tables
@@ -210,12 +223,16 @@ def tiers(ctx):
         # all 16 flag sets in the other kinds of paragraph
         "flagkinds": layer(Kinds=S("h", "q", "code", "li"), HLevels=S(2), FlagNames=F16),
         # every text class in every kind of paragraph, plain and bold
-        "text": layer(Kinds=S("p", "h", "q", "code", "li"), HLevels=S(1, 3), LiTypes=S("bul", "num"), FirstCls=ALLCLS, FlagNames=S("", "b")),
+        "text": layer(Kinds=S("p", "h", "q", "code", "li"), HLevels=S(1, 3), LiTypes=S("bul", "num"), FirstCls=ALLCLS - MARK if q else ALLCLS,
+                      FlagNames=S("", "b")),
+        # a text that is a block marker and nothing else (- + * 12. 3) # > --- ===), the markers in front of a word, look-alikes:
+        # in every kind of paragraph (quick: plain; thorough: also bold, in the layer above, and under both heading syntaxes)
+        "markers": layer(Kinds=S("p", "h", "q", "code", "li"), HLevels=S(1, 3), FirstCls=MARK, Setexts=B(F) if q else B(F, T), OptArity=1),
         # every text class as the second run (after a plain word, no white space between)
         "text2": layer(MaxRuns=2, MinBlocks=1, Kinds=S("p") if q else S("p", "h", "li"), FirstCls=S("w3"), MoreCls=ALLCLS - S("w1", "two"),
                        FlagNames=S("") if q else S("", "i")),
         # every text class in a header cell and in a body cell
-        "cells": layer("CS_meta", Kinds=S("tbl"), TblShapes=S("1x1", "2x1") if q else S("1x1", "2x1", "1x2"), TblOffs=frozenset(range(19))),
+        "cells": layer("CS_meta", Kinds=S("tbl"), TblShapes=S("1x1", "2x1") if q else S("1x1", "2x1", "1x2"), TblOffs=frozenset(range(33))),
         "shapes": layer("CS_mix", Kinds=S("tbl"), TblShapes=SHAPES, TblOffs=S(0) if q else S(0, 3, 5)),
         # every kind with its parameters (heading levels 1-9, list types and levels, empty paragraphs, table shapes), in pairs
         "pairs": layer("CS_plain", MaxBlocks=2, Kinds=ALLK, PosText=True, HLevels=S(1, 2, 6, 7, 9) if q else frozenset(range(1, 10)),
@@ -224,6 +241,20 @@ def tiers(ctx):
         # every field of ExportOptions on the smallest documents of every kind
         "options": layer(Kinds=S("p", "h", "li", "code", "tbl"), HLevels=S(1, 3), FirstCls=S("two"), FlagNames=S("", "i"),
                          OptArity=2 if q else 8, **ALLOPT),
+        # the exporter's walk has a memory (in a list, in a code block): a blank heading / quote / code paragraph / list item /
+        # plain paragraph, then every kind of block with formatted text and with text that must be escaped ...
+        "carry": layer("CS_meta", MaxBlocks=2, MinBlocks=2, Kinds=ALLK, BlankKinds=STYLED, BlankOnly=S(1),
+                       EmptyCls=S(("ws", "none")[ctx.seed % 2]) if q else S("none", "ws"),
+                       FlagNames=S("", "b"), FirstCls=S("w1", "star"), TblShapes=S("1x1")),
+        # ... and the same between two blocks (in the quick tier what the blank paragraph holds - no run, a run of white space -
+        # rotates with the seed, the other way round in the two layers)
+        "carry3": layer("CS_meta", MaxBlocks=3, MinBlocks=3, Kinds=S("p", "li", "code", "empty") if q else ALLK, BlankKinds=STYLED, BlankOnly=S(2),
+                        EmptyCls=S(("none", "ws")[ctx.seed % 2]) if q else S("none", "ws"), FlagNames=S("", "b"), FirstCls=S("star"),
+                        TblShapes=S("1x1")),
+        # headings / quotes / code paragraphs that carry numbering properties (Word's numbered headings) next to list items and
+        # to each other, in both heading syntaxes
+        "numbered": layer(MaxBlocks=2, MinBlocks=2, Kinds=S("p", "h", "q", "code", "li"), NumPrs=S("", ("num", "bul")[ctx.seed % 2]) if q else S("", "bul", "num"),
+                          HLevels=S(1, 2) if q else S(1, 2, 3), PosText=True, Setexts=B(F, T), OptArity=1),
         # every way of calling the exporter, on documents built in memory and opened from saved bytes
         "calls": layer(MaxBlocks=2, Kinds=S("p", "tbl") if q else S("p", "h", "li", "tbl"), PosText=True, Gfms=B(T, F), Setexts=B(F, T), OptArity=1,
                        Apis=S("string", "bytes", "file", "batch", "auto"), Cos=S("ctor", "call", "both", "none"),
@@ -236,7 +267,8 @@ def tiers(ctx):
     cl = frozenset(rng.sample(sorted(ALLCLS - S("w1", "two")), 10)) | S("w1", "two")
     sim = dict(num=70, depth=40, limit=500) if q else dict(num=900, depth=60, limit=6000)
     simc = layer("CS_mix", MaxBlocks=6 if q else 8, MinBlocks=3, MaxRuns=3, Kinds=ALLK, HLevels=S(1, 2, 4, 8), LiTypes=S("bul", "num"),
-                 LiLevels=S(0, 2), FlagNames=fl, FirstCls=cl, MoreCls=cl, EmptyCls=S("none", "ws", "empty"), TblShapes=S("1x1", "2x2", "3x2", "2x3"),
+                 LiLevels=S(0, 2), FlagNames=fl, FirstCls=cl, MoreCls=cl, EmptyCls=S("none", "ws", "empty"), BlankKinds=STYLED, NumPrs=S("", "num"),
+                 TblShapes=S("1x1", "2x2", "3x2", "2x3"),
                  TblOffs=S(0, 4), OptArity=2, Apis=S("string", "file"), Cos=S("ctor", "call"), Origins=S("mem", "open"),
                  Warms=B(F), **ALLOPT)
     return mc, layers, simc, sim
@@ -308,6 +340,11 @@ ASSUMPTIONS = [
     "white-space-only paragraph has nothing to show and is not demanded in the Markdown",
     "Markdown has six heading levels: Heading7-9 may be written as level 6; the list marker type (bullet/number) and the nesting level of a "
     "list item are not demanded (the statement speaks of order, text and the four character formats); code blocks carry no inline flags",
+    "the paragraph style decides what a paragraph is: a heading / quote / code paragraph that also carries numbering properties (a Word "
+    "numbered heading) is demanded as the heading / quote / code it is, its number is not demanded; the harness checks on the saved "
+    "bytes that the numbering properties are really there",
+    "a heading / quote / code paragraph / list item without a word shows nothing, like an empty paragraph: it is not demanded in the "
+    "Markdown, and the blocks after it must look exactly as they would without it",
     "flags are demanded of paragraphs, headings, quotes and list items in the export; for the converted-back document the statement "
     "demands block sequence and text only; the second export must equal the first as a string",
     "a table exported in the non-GFM layout (UseGFMTables=false) is not a Markdown table: only its words (once, in order) are demanded of "
